@@ -416,8 +416,8 @@ type SSClient struct {
 	Enc   *sscodec.StreamEncoder
 	Dec   *sscodec.StreamDecoder
 	Local string
-	T0    time.Time // taken before dialling
-	Sent  int64     // wire bytes written
+	T0    time.Time    // taken before dialling
+	sent  atomic.Int64 // wire bytes written
 }
 
 // DialSS connects to server from the given source IP (nil: kernel's choice) with a chosen salt.
@@ -441,9 +441,12 @@ func DialSS(server string, src net.IP, key KeySpec, salt []byte) (*SSClient, err
 	return cl, nil
 }
 
+// SentBytes is the number of wire bytes written so far.
+func (c *SSClient) SentBytes() int64 { return c.sent.Load() }
+
 func (c *SSClient) WriteRaw(b []byte) error {
 	n, err := c.Conn.Write(b)
-	c.Sent += int64(n)
+	c.sent.Add(int64(n))
 	return err
 }
 
